@@ -23,7 +23,8 @@ open Driver_util
 
 type lent = { e_t : int; e_ep : int; e_l : int; e_cls : int; e_ms : int; e_v1 : int; e_v2 : int; e_v3 : int }
 type tio = TITimeout | TIUnknown_ | TIPresent of int list
-type iobs = { alive : bool; now : int; lt_ok : bool; lt : int list list; ti : tio list; raw : int list list list; log : lent list }
+type iobs = { alive : bool; now : int; lt_ok : bool; lt : int list list; ti : tio list; raw : int list list list; log : lent list;
+              samples : int; moves : int; both : int; van : (int * int * int * string) list }
 type istep = { k : int; a : int; b : int; res : int; dur : int; o : iobs }
 
 type stats = { mutable cases : int; mutable steps : int; mutable compares : int; mutable corr_fail : int; mutable mon_fail : int;
@@ -31,11 +32,11 @@ type stats = { mutable cases : int; mutable steps : int; mutable compares : int;
                mutable lat_n : int; mutable lat_sum : int; mutable lat_max : int; mutable not_alive : int;
                fam : (int, int) Hashtbl.t; acls : (int, int) Hashtbl.t; rcls : (int, int) Hashtbl.t;
                kinds : (int, int) Hashtbl.t; nontrivial : (string, unit) Hashtbl.t; monc : (int, int) Hashtbl.t;
-               mutable cap_hits : int }
+               mutable cap_hits : int; mutable samples : int; mutable moves : int; mutable both : int; mutable vanish : int }
 let st = { cases = 0; steps = 0; compares = 0; corr_fail = 0; mon_fail = 0; kills = 0; settle_caps = 0; max_cands = 0;
            requests = 0; lat_n = 0; lat_sum = 0; lat_max = 0; not_alive = 0; fam = Hashtbl.create 16; acls = Hashtbl.create 16;
            rcls = Hashtbl.create 16; kinds = Hashtbl.create 16; nontrivial = Hashtbl.create 256; monc = Hashtbl.create 16;
-           cap_hits = 0 }
+           cap_hits = 0; samples = 0; moves = 0; both = 0; vanish = 0 }
 let bump h k = Hashtbl.replace h k (1 + (try Hashtbl.find h k with Not_found -> 0))
 
 let arities = [| 3; 3; 2; 2; 5; 5; 3 |]
@@ -79,7 +80,10 @@ let parse_obs r nt : iobs =
     let e_t = next_int r in let e_ep = next_int r in let e_l = next_int r in let e_cls = next_int r in
     let e_ms = next_int r in let e_v1 = next_int r in let e_v2 = next_int r in let e_v3 = next_int r in
     { e_t; e_ep; e_l; e_cls; e_ms; e_v1; e_v2; e_v3 }) in
-  { alive; now; lt_ok; lt; ti; raw; log }
+  expect r "VAN";
+  let samples = next_int r in let moves = next_int r in let both = next_int r in
+  let van = read_list r (fun r -> let t = next_int r in let l = next_int r in let ms = next_int r in let state = next r in (t, l, ms, state)) in
+  { alive; now; lt_ok; lt; ti; raw; log; samples; moves; both; van }
 
 (* ---------- model state -> canonical observation ---------- *)
 let ints l = List.map int_of_n l
@@ -299,7 +303,8 @@ let mon_obs (o : iobs) : cobs =
   { ob_alive = o.alive && o.lt_ok; ob_ms = nn o.now; ob_lt = lt;
     ob_db = List.map (fun rows -> List.map (fun r -> List.map nn r) rows) o.raw @ [[]];
     ob_log = List.map (fun e -> { le_t = nn e.e_t; le_ep = nn e.e_ep; le_l = nn e.e_l; le_cls = nn e.e_cls; le_ms = nn e.e_ms;
-                                  le_v1 = nn e.e_v1; le_v2 = nn e.e_v2; le_v3 = nn e.e_v3 }) o.log }
+                                  le_v1 = nn e.e_v1; le_v2 = nn e.e_v2; le_v3 = nn e.e_v3 }) o.log;
+    ob_van = List.map (fun (t, l, ms, _) -> ((nn t, nn l), nn ms)) o.van }
 
 let has_undecodable (o : iobs) : bool =
   List.exists (fun rows -> List.exists (List.exists (fun x -> x = -2)) rows) o.raw
@@ -334,6 +339,8 @@ let handle (lineno : int) (_line : string) (r : reader) : unit =
   Array.iter (fun s ->
     bump st.kinds s.k;
     if s.k = 9 then st.kills <- st.kills + 1;
+    st.samples <- st.samples + s.o.samples; st.moves <- st.moves + s.o.moves; st.both <- st.both + s.o.both;
+    st.vanish <- st.vanish + List.length s.o.van;
     if (s.k = 5 || s.k = 12) && s.res = 2 then st.settle_caps <- st.settle_caps + 1;
     List.iter (fun e -> st.requests <- st.requests + 1;
                 if e.e_ep = 1 then bump st.acls e.e_cls else if e.e_ep = 0 then bump st.rcls e.e_cls) s.o.log) steps;
@@ -356,8 +363,16 @@ let handle (lineno : int) (_line : string) (r : reader) : unit =
         if not (Hashtbl.mem seen code) then begin
           Hashtbl.replace seen code ();
           st.mon_fail <- st.mon_fail + 1; bump st.monc code;
+          let site =
+            if code = 503 then
+              (* the sample itself: when, and what the sampler read *)
+              let found = ref "sample" in
+              Array.iter (fun s -> List.iter (fun (t', l', ms, state) ->
+                if !found = "sample" && t' = int_of_n t && l' = int_of_n l then found := Printf.sprintf "sample@%dms:%s" ms state) s.o.van) steps;
+              !found
+            else !final_site in
           Printf.printf "FAIL mon line=%d prop=%s check=%d family=%d step=%d t=%d l=%d site=%s case=%s\n" lineno prop code family
-            (int_of_n step) (int_of_n t) (int_of_n l) !final_site case_key
+            (int_of_n step) (int_of_n t) (int_of_n l) site case_key
         end) vs in
     report "C05" (mon_c05 sc);
     report "C14" (mon_c14 sc);
@@ -488,10 +503,11 @@ let show_hist h = String.concat "," (List.map (fun (k, v) -> Printf.sprintf "%d:
 
 let summary () =
   if st.cases > 0 then
-    Printf.printf "SUMMARY kind=CP cases=%d steps=%d settle_compares=%d corr_fail=%d mon_fail=%d distinct_nontrivial=%d kills=%d settle_caps=%d max_candidates=%d cap_hits=%d requests=%d not_alive_compares=%d latency_n=%d latency_avg_ms=%d latency_max_ms=%d families=%s add_classes=%s reg_classes=%s step_kinds=%s mon_codes=%s\n"
+    Printf.printf "SUMMARY kind=CP cases=%d steps=%d settle_compares=%d corr_fail=%d mon_fail=%d distinct_nontrivial=%d kills=%d settle_caps=%d max_candidates=%d cap_hits=%d requests=%d not_alive_compares=%d latency_n=%d latency_avg_ms=%d latency_max_ms=%d families=%s add_classes=%s reg_classes=%s step_kinds=%s mon_codes=%s db_samples=%d moves_sampled=%d moves_seen_with_both_records=%d vanished_samples=%d\n"
       st.cases st.steps st.compares st.corr_fail st.mon_fail (Hashtbl.length st.nontrivial) st.kills st.settle_caps st.max_cands
       st.cap_hits st.requests st.not_alive st.lat_n (if st.lat_n > 0 then st.lat_sum / st.lat_n else 0) st.lat_max
       (show_hist st.fam) (show_hist st.acls) (show_hist st.rcls) (show_hist st.kinds) (show_hist st.monc)
+      st.samples st.moves st.both st.vanish
 
 let () =
   register "CP" handle;
